@@ -62,6 +62,7 @@ fn main() {
         "C11" => props::c11::run(&mut rep, &tier, seed),
         "C15" => props::c15::run(&mut rep, &tier, seed),
         "C16" => props::c16::run(&mut rep, &tier, seed),
+        "C18" => props::c18::run(&mut rep, &tier, seed),
         "C20" => props::c20::run(&mut rep, &tier, seed),
         "C13" => props::c13::run(&mut rep, &tier, seed),
         "C14" => props::c14::run(&mut rep, &tier, seed),
